@@ -51,12 +51,21 @@ func main() {
 			os.Exit(2)
 		}
 		i := strings.Index(*dump, ":")
-		f := ctx.Func((*dump)[:i], (*dump)[i+1:])
+		fname, anon := (*dump)[i+1:], 0
+		if j := strings.Index(fname, "$"); j >= 0 {
+			fmt.Sscanf(fname[j+1:], "%d", &anon)
+			fname = fname[:j]
+		}
+		f := ctx.Func((*dump)[:i], fname)
 		if f == nil {
 			fmt.Fprintln(os.Stderr, "not found")
 			os.Exit(2)
 		}
-		t := an.BuildPathTable(ctx.SSAFunc(f), an.PathOpts{LoopBound: *loop})
+		sf := ctx.SSAFunc(f)
+		if anon > 0 {
+			sf = sf.AnonFuncs[anon-1]
+		}
+		t := an.BuildPathTable(sf, an.PathOpts{LoopBound: *loop})
 		fmt.Print(t.Dump())
 		for _, a := range t.AtomSet() {
 			fmt.Println("ATOM", a)
